@@ -56,6 +56,10 @@ func refRuleValue(sb *strings.Builder, name string, r *model.Rule, depth int) {
 	case "min", "max":
 		refRule(sb, name, "number", r.Num, srcManual, depth)
 	case "precision", "minLength", "maxLength", "minItems", "maxItems":
+		if r.Raw != "" {
+			refRule(sb, name, "number", r.Raw, srcManual, depth) // a count beyond the range of int
+			return
+		}
 		refRule(sb, name, "number", strconv.Itoa(r.Int), srcManual, depth)
 	case "regex":
 		refRule(sb, name, "string", r.Str, srcManual, depth)
@@ -237,6 +241,14 @@ func c16Run(c *mon.Ctx, unit int) {
 			}
 			if len(n.Rules) > 0 && n.Note == "" && r.Chance(1, 8) {
 				n.Dash = true
+			}
+			// counts in the upper half of the unsigned range (legal: "at most 2^64-1 characters")
+			big := mon.Pick(r, []string{"18446744073709551615", "9223372036854775808", "9223372036854775807", "4294967296"})
+			switch {
+			case n.Kind == model.KString && len(n.Rules) == 0 && r.Chance(1, 6):
+				n.Rules = append(n.Rules, &model.Rule{Name: "maxLength", Raw: big})
+			case n.Kind == model.KArray && n.Rule("maxItems") == nil && n.Rule("or") == nil && n.Rule("enum") == nil && r.Chance(1, 8):
+				n.Rules = append(n.Rules, &model.Rule{Name: "maxItems", Raw: big})
 			}
 			if n.Kind == model.KRef && n.Rule("or") == nil && r.Chance(1, 6) {
 				n.Refs = append(n.Refs, n.Refs[r.Intn(len(n.Refs))])
